@@ -401,6 +401,58 @@ func c20Chains(r *Run) {
 			forms = append(forms, "{% ctx t = "+c.head+"|"+strings.Join(c.steps[:cut], "|")+" %}{%= t|"+strings.Join(c.steps[cut:], "|")+" %}")
 		}
 		base := c20Render(forms[0], c.vars)
+		// the chain step by step, each step rendered on its own with the previous step's printed result handed over
+		// by the harness as a fresh variable (every single step is judged by the streams above): a chain in which
+		// a later modifier does not start from the earlier one's result shows here
+		if c.head == "x" || c.head == "ts" {
+			cur := c.vars[0]
+			okSeq, why := true, ""
+			var last rendered
+			for si, st := range c.steps {
+				vars := append([]c20Var{cur}, c.vars[1:]...)
+				isLast := si == len(c.steps)-1
+				tpl := "{%= " + c.head + "|" + st + " %}"
+				if c.head == "ts" && !isLast {
+					tpl = "{%= ts|" + st + "|time::date(time::RFC3339Nano) %}"
+				}
+				last = c20Render(tpl, vars)
+				if last.Panic != "" || last.Err != nil {
+					okSeq, why = false, "step "+st+" failed: "+last.ErrStr()
+					break
+				}
+				if isLast {
+					break
+				}
+				if c.head == "ts" {
+					t, err := time.Parse(time.RFC3339Nano, string(last.Out))
+					if err != nil {
+						okSeq, why = false, "intermediate instant does not parse: "+string(last.Out)
+						break
+					}
+					cur = c20Var{Name: "ts", Kind: "time", Text: c20TimeText(t.UTC())}
+				} else {
+					f, err := strconv.ParseFloat(string(last.Out), 64)
+					if err != nil {
+						okSeq, why = false, "intermediate value does not parse: "+string(last.Out)
+						break
+					}
+					cur = fl("x", f)
+				}
+			}
+			sig := "chain-steps " + forms[0] + " " + c20VarsText(c.vars)
+			r.Count(sig, true)
+			r.Dist["chain-steps"]++
+			cmp := "float"
+			if c.head == "ts" {
+				cmp = "text"
+			}
+			if okSeq && (base.Err != nil || !c20Same(cmp, string(base.Out), string(last.Out))) {
+				r.Violate(sig, "a chain of numeric / date modifiers does not give what its steps give one after the other",
+					map[string]any{"chain": forms[0], "vars": c.vars, "chain_output": string(base.Out), "steps_output": string(last.Out), "chain_error": base.ErrStr()})
+			} else if !okSeq {
+				r.Dist["chain-steps-skipped: "+why]++
+			}
+		}
 		for _, f := range forms[1:] {
 			got := c20Render(f, c.vars)
 			sig := "chain " + f + " " + c20VarsText(c.vars)
